@@ -133,6 +133,29 @@ func mutateAll(c *Ctx, ep *entryPoint) {
 				probe(c, ep, m, "count-field")
 			}
 		}
+		// 8-byte offset / size fields: values whose sum with a small size wraps around 2^64 or is negative as int64
+		step8 := 4
+		if c.Quick() && len(base) > 256 {
+			step8 = 4 * (len(base)/256 + 1)
+		}
+		for pos := 0; pos+8 <= len(base); pos += step8 {
+			if skipped(pos, 8) {
+				continue
+			}
+			for vi, v := range []uint64{^uint64(0), ^uint64(0) - 7, ^uint64(0) - uint64(len(base)/2), 1 << 63} {
+				if c.Quick() && vi >= 2 && pos%16 != 0 {
+					continue
+				}
+				m := append([]byte{}, base...)
+				binary.LittleEndian.PutUint64(m[pos:], v)
+				probe(c, ep, m, "wide-field")
+				if !c.Quick() || pos%16 == 0 {
+					m2 := append([]byte{}, base...)
+					binary.BigEndian.PutUint64(m2[pos:], v)
+					probe(c, ep, m2, "wide-field")
+				}
+			}
+		}
 		for i := 0; i < 10; i++ {
 			m := make([]byte, c.R.Intn(64))
 			c.R.Read(m)
